@@ -36,7 +36,7 @@ def w2_rows(F):
     return f, rows
 
 
-def normalise(rows):
+def normalise(rows, F=None):
     """Writer rows that processed the symbolic argument -> [{expr, cond, cond_text}]"""
     out = []
     for r in rows:
@@ -45,24 +45,45 @@ def normalise(rows):
         e = codec.per_arg_expr(r)
         if e is None:
             continue
-        conds = []
+        conds = []      # list of predicates on the argument string
+        texts = []
         for a in r["assume"]:
-            if isinstance(a[0], str) and a[0].startswith("contains("):
-                # contains(ARG, lit) == value
+            tag = a[0]
+            if isinstance(tag, str) and tag.startswith("contains("):
                 ev = [x for x in r["events"] if x[0] == "test-contains"]
                 pat = ev[0][2][1] if ev and ev[0][2] and ev[0][2][0] == "lit" else None
                 if pat is None:
                     raise codec.ShapeChanged("contains() with a non-literal pattern")
-                conds.append((pat, bool(a[1][1])))
-            elif isinstance(a[0], str) and (a[0].startswith("cmp:") or a[0].startswith("is_empty")):
+                val = bool(a[1][1])
+                conds.append(lambda s, _p=pat, _v=val: (_p in s) == _v)
+                texts.append(("contains %r" % pat) if val else ("lacks %r" % pat))
+            elif isinstance(tag, str) and tag.startswith("is_empty("):
+                if "'arg'" not in tag:
+                    continue
+                if "'repl'" in tag:
+                    # emptiness of the replaced string == emptiness of the argument only if no replacement deletes text
+                    pass
+                val = bool(a[1][1])
+                conds.append(lambda s, _v=val: (s == "") == _v)
+                texts.append("is empty" if val else "is not empty")
+            elif isinstance(tag, tuple) and tag and tag[0] == "quant":
+                _, which, unit, cdef, expr = tag
+                pred = codec.closure_predicate(F, cdef, unit)
+                val = bool(a[1][1])
+                if which == "any":
+                    conds.append(lambda s, _p=pred, _v=val, _e=expr: any(_p(c) for c in codec.apply_expr(_e, s)) == _v)
+                else:
+                    conds.append(lambda s, _p=pred, _v=val, _e=expr: all(_p(c) for c in codec.apply_expr(_e, s)) == _v)
+                texts.append("%s of %s satisfies %s: %s" % ("some " + unit[:-1] if which == "any" else "every " + unit[:-1], codec.expr_str(expr),
+                                                            mir.short(cdef), val))
+            elif isinstance(tag, str) and tag.startswith("cmp:"):
                 continue
             else:
                 raise codec.ShapeChanged("writer path depends on %r" % (a,))
 
         def cond(s, _c=tuple(conds)):
-            return all((p in s) == v for p, v in _c)
-        out.append({"expr": e, "cond": cond if conds else None,
-                    "cond_text": " and ".join(("contains %r" % p) if v else ("lacks %r" % p) for p, v in conds) or "always"})
+            return all(f(s) for f in _c)
+        out.append({"expr": e, "cond": cond if conds else None, "cond_text": " and ".join(texts) or "always"})
     if not out:
         raise codec.ShapeChanged("no writer path appends the argument")
     return out
@@ -79,7 +100,8 @@ def final_template(f):
 
 def class_name(c):
     return {"\\": "backslash", '"': "double-quote", " ": "space", "\t": "tab", "\n": "newline", "\r": "carriage-return",
-            "x": "other-ascii", "é": "non-ascii", "0": "digit", "": "empty-string"}.get(c, "letter-" + c if len(c) == 1 else c)
+            "x": "other-ascii", "é": "non-ascii", "0": "digit", "": "empty-string", "\x0b": "vertical-tab", "\x0c": "form-feed",
+            "\u0085": "next-line-U+0085", "\u00a0": "no-break-space-U+00A0", "\u3000": "ideographic-space-U+3000"}.get(c, "letter-" + c if len(c) == 1 else c)
 
 
 def report_roundtrip(rep, rule, label, tab, rows, where, fn_path, record_sep=None):
